@@ -9,10 +9,11 @@ from lib import dstr, dopt
 from props import textcmp as T
 from props.c04 import join_text
 
-KINDS = [None, 'table', 'graph', 'csv']
+KINDS = [None, 'table', 'graph', 'csv', 'parquet']
 ARGVS = [['--write', 'table'], ['-w', 'graph'], ['--w', 'table,graph'], ['--write-all'], ['-W'], ['--W'],
          ['-v', '--write', 'csv', 'table'], ['--wquiet', '--write', 'graph'], ['-1W'], ['--tagged'],
-         ['-v'], ['--write', 'a,b,,graph'], ['-Wv', '-1'], ['--write']]
+         ['-v'], ['--write', 'a,b,,graph'], ['-Wv', '-1'], ['--write'], ['--write', 'parquet'], ['-w', 'csv'],
+         ['--write', 'parquet', 'graph']]
 
 
 def snapshot(d):
@@ -268,7 +269,7 @@ def run(ctx):
                     break
                 if a in ('--write-all', '--W') or (a.startswith('-') and not a.startswith('--') and 'W' in a):
                     allk = True
-            for k in ['table', 'graph', 'csv', 'zzz', None, 'a', 'b']:
+            for k in ['table', 'graph', 'csv', 'parquet', 'zzz', None, 'a', 'b']:
                 want = allk or (k in named)
                 if bool(rt._should_regenerate(k)) != want:
                     ctx.fail({'argv': argv_tail, 'kind': k},
